@@ -30,7 +30,11 @@ CLAIMED = {
         ref="6 C05"),
     "C06": dict(
         technique="TLA+ SP 800-38D GCM over TLA+ SM4 evaluated by TLC on recorded Seal calls of three implementation paths; solved counter-wrap nonces",
-        text="TLC recomputes ciphertext and tag of every recorded Seal with GCM.tla over SM4.tla (both validated on every run "
+        text="SP 800-38D is written once over an abstract block (GCMG.tla); TLC checks exhaustively at toy size (2-symbol blocks, counter "
+             "wrapping every 4 blocks, GF(2^4)) that the implementation-shaped model of the fused code (GcmKernels.tla: counter "
+             "lanes, kernel ladder 16/8/4/2/1 + staged tail, 4-way aggregated GHASH, hash-then-decrypt Open) equals it for all "
+             "text/aad/IV lengths; the 128-bit instance of the same text (GCM.tla) is the oracle: "
+             "TLC recomputes ciphertext and tag of every recorded Seal with GCM.tla over SM4.tla (both validated on every run "
              "by published vectors: GCM-spec GF(2^128) case, RFC 8998 SM4-GCM): plaintext lengths covering every combination "
              "of the 256/128/64/32/16-byte kernels with and without a tail (thorough: all 0..1100), aad and nonce lengths "
              "across the 1-way/4-way GHASH thresholds (thorough: all), tag sizes 12..16, nonces solved in GF(2^128) so the "
